@@ -7,7 +7,13 @@ SuPartition.lean, run at Float through Drivers/C01.lean) and
   (b) SolveUnc(...).tsolve over the option grid, uncoupled real path (histories)
   (c) SolveUnc coupled path / pre_eig / SolveExp2 / SolveExp1 on systems BUILT FROM modal data, so
       the model's closed form mapped through the chosen mode shapes is the reference.
-Floats travel as bit patterns.  The oracle (`search`) never touches the model.
+  (q, r) the coupled path / SolveExp2 driven by the implementation's own pc / E, P, Q; static initial state, M^-1 F and
+      acceleration by the model's Gaussian elimination (over Q / at Float)
+  (x) SolveExp1 (own E, P, Q; and exactly over Q on dyadic E, P, Q), force dtypes
+  (e) pre_eig (own phi; and exactly over Q on diagonal systems where la.eigh is exact)
+  (u) uncoupled equations with complex-dtype coefficients (complex-eigenvalue path, undamped rigid-body recurrence)
+and a translator (harness/translate/c01_sucoefcuts.py) that regenerates the cut-off literals of the regime dispatch.
+Floats travel as bit patterns, rationals as num/den.  The oracle (`search`) never touches the model.
 """
 import json
 import math
@@ -35,6 +41,7 @@ LEAN_MODULES = [
     "PyYetiVerif.Props.C01StaticC",
     "PyYetiVerif.Props.C01PreEig",
     "PyYetiVerif.Props.C01Cuts",
+    "PyYetiVerif.Props.C01CplxUnc",
     "PyYetiVerif.Audit.C01",
 ]
 AUDIT_FILE = "PyYetiVerif/Audit/C01.lean"
@@ -65,22 +72,33 @@ THEOREMS = [
         "pre_eig_solution_is_solution pre_eig_mass_forms_agree pre_eig_damping_forms_agree pre_eig_ic_consistent "
         "pre_eig_ic_is_phiT_M pre_eig_first_sample "
         # cut-offs as the source spells them (Props/C01Cuts.lean, about Generated/SuCoefCuts.lean)
-        "cuts_as_documented crit_regimes_partition classify_elastic_spec classify_rb_spec classify_auto_rb_iff"
+        "cuts_as_documented crit_regimes_partition classify_elastic_spec classify_rb_spec classify_auto_rb_iff "
+        # uncoupled equations with complex-dtype coefficients: rigid-body rows, finding F61 (Props/C01CplxUnc.lean)
+        "complex_unc_rb_row_is_undamped isSol_unit_mass_scale complex_unc_rb_exact_partial "
+        "complex_unc_damped_rb_counterexample complex_recovery_real_part complex_recovery_spurious_imag_counterexample"
     ).split()
 ]
 TRUSTED = [
     "correspondence harness harness/props/c01.py (|impl-model| <= 1e-9*scale, scale = largest magnitude among the "
-    "added terms; streams through eig/expm 1e-9*scale*cond of the eigenvectors; closed-form stream 1e-7*scale*cond(phi))",
+    "added terms; streams through eig/expm 1e-9*scale*cond of the eigenvectors; closed-form stream 1e-7*scale*cond(phi); "
+    "EXACT over the rationals in the streams exp1x (SolveExp1 recurrence on dyadic E, P, Q) and pex (pre_eig on diagonal "
+    "systems with masses 4^j), exact bit patterns for classifications, partitions and dtypes)",
+    "translator harness/translate/c01_sucoefcuts.py (Python ast, no execution): the literals of the regime tests of "
+    "get_su_coef, _get_complex_su_coefs, _make_rb_el -> Generated/SuCoefCuts.lean, with the comparison operators checked",
     "numpy/libm exp, sin, cos, sqrt, pow at Float (1-ulp differences between numpy and Lean's C library calls)",
-    "scipy.linalg.eig / inv (coupled path), eigh (pre_eig), lu_solve and expmint.getEPQ are not modelled: they enter "
-    "the theorems as hypotheses (DelconjSpec: the eigen-decomposition rebuilt from pc.lam, pc.ur, pc.ur_inv diagonalises "
-    "A and is inverted by ur_inv; ExpSpec: E, P, Q are exp(Ah) and its two integrals) and these hypotheses are measured "
-    "on the implementation's own pc / E, P, Q on every run with plain numpy / scipy.linalg.expm (residual <= 1e-9*cond, "
-    "resp. 1e-8); M^-1 F, the coupled static initial state K_ee^-1 F0 and the coupled acceleration M^-1 (F - B v - K d) "
-    "are evaluated with numpy inside the harness from the model's d, v",
+    "scipy.linalg.eig / inv (coupled path), la.eigh (pre_eig) and expmint.getEPQ are not modelled: they enter the "
+    "theorems as hypotheses (DelconjSpec: the eigen-decomposition rebuilt from pc.lam, pc.ur, pc.ur_inv diagonalises A "
+    "and is inverted by ur_inv; ExpSpec: E, P, Q are exp(Ah) and its two integrals; eigh: phi' M phi = 1, phi' K phi "
+    "diagonal) and these hypotheses are measured on the implementation's own pc / E, P, Q / phi on every run with plain "
+    "numpy / scipy.linalg.expm (residual <= 1e-9*cond, resp. 1e-8; exactly over Q in the pex stream)",
+    "LAPACK's linear solves (np.linalg.solve, la.solve, lu_factor + lu_solve) are represented in the model by Gaussian "
+    "elimination with partial pivoting (Model/FreqGauss.lean, shared with C02, proved to return a solution over any "
+    "field: lin_solve_spec); the driver runs it over Q on the exact values of the doubles (static initial state, "
+    "la.solve(phi, d0) in the pex stream) and at Float (M^-1 F, acceleration); agreement with LAPACK is numeric",
     "switch errors of the cut-offs (|w2/wo2| < 1e-8 treated as critical, |lam| < 5e-5 treated as zero, "
-    "wo2 < 0.005 treated as rigid), the (w h)^-3 cancellation of the uncoupled coefficients and the (|lam| h)^-2 "
-    "cancellation of the complex coefficients Ae, Be are floating-point facts: measured, not proved",
+    "abs(k) < 0.005 treated as rigid, the two damped-rigid-body cut-offs), the (w h)^-3 cancellation of the uncoupled "
+    "coefficients and the (|lam| h)^-2 cancellation of the complex coefficients Ae, Be are floating-point facts: "
+    "measured (boundary oracle against a 60-digit reference), not proved",
 ]
 RULE = (
     "(a) one case = one scalar mode (m|None, b, k, h, rb flag, rf flag) drawn per regime (rigid, rigid-damped "
@@ -95,61 +113,97 @@ RULE = (
     "data + a well-conditioned mode-shape matrix, compared on five solver variants. (q) one case = a coupled system "
     "(general M, symmetric / skew / mixed / no damping, gyroscopically coupled zero-stiffness DOF, or built from modal "
     "data with block rigid-body modes) x order x d0/v0/static_ic; the Lean model is run on the implementation's own "
-    "pc.lam, ur, ur_inv; cond(eigenvectors) > 1e6 skipped and counted; a mode with 5e-5 <= |lam| and |lam| h < 1e-3 is "
+    "pc.lam, ur, ur_inv, the static initial state, M^-1 F and the acceleration by the model's elimination; "
+    "cond(eigenvectors) > 1e6 skipped and counted; a mode with 5e-5 <= |lam| and |lam| h < 1e-3 is "
     "outside the conditioning domain (Ae, Be lose (|lam| h)^-2 digits by cancellation): skipped and counted, tolerance "
     "graded by (1e-2/(|lam| h))^2 for 1e-3 <= |lam| h < 1e-2 (same rule in the oracle). (r) the same systems (any damping, singular "
-    "stiffness allowed) and uncoupled ones with rf modes through SolveExp2, the Lean model run on its own E, P, Q"
+    "stiffness allowed) and uncoupled ones with rf modes through SolveExp2, the Lean model run on its own E, P, Q. "
+    "(x) one case = a first-order system (state matrix of a second-order system / random / nilpotent A, n <= 6) x order x "
+    "force dtype (float64, int64, float32) x d0 given or not, SolveExp1 on its own E, P, Q; (x-exact) n <= 3, nt <= 6, "
+    "E, P, Q, A with entries j/4, forces whole or half numbers: compared as rationals. (e) one case = a symmetric "
+    "system x mass form (None, 1-D, 2-D) x damping form (1-D, 2-D) x SolveUnc / SolveExp2 x d0, v0, static_ic with "
+    "pre_eig=True, the model driven by the implementation's own phi; (e-exact) diagonal systems with masses 4^j, modal "
+    "stiffnesses 2^j (one may be 0: a rigid-body mode), first sample only (nt = 1): compared as rationals. (u) one case = an "
+    "uncoupled system whose m, b or k has a complex dtype (zero imaginary parts or a loss factor 1e-3..5e-2) x order x rb "
+    "auto/explicit x damped / undamped rigid-body modes x static_ic. Oracle extra: 44 fixed boundary cases at "
+    "constant*(1 -+ 1e-3) and 3x, 9x each documented cut-off (one mode against a 60-digit reference; rb=None against the "
+    "documented rule; a coupled system with an eigenvalue at the 5e-5 test)"
 )
 ASSUMPTIONS = [
     "mass is non-singular and the rb/rf partitions are given in modal space (documented domain)",
-    "theorems are over the reals / complexes; Float evaluation is used only in the correspondence check",
+    "theorems are over the reals / complexes (linear-solve theorems over any field); Float / Rat evaluation is used "
+    "only in the correspondence check",
     "coupled-path theorems: the kept eigen-data satisfy DelconjSpec (rebuilt decomposition: U V = 1, V U = 1, "
-    "A U = U diag(lam), real modes real, small-eigenvalue branch only for zero eigenvalues); SolveExp2 theorems: "
-    "E, P, Q satisfy ExpSpec (E = exp(A h), P, Q its hold integrals); both measured per run, not proved of scipy",
+    "A U = U diag(lam), real modes real, small-eigenvalue branch only for zero eigenvalues); SolveExp2 / SolveExp1 "
+    "theorems: E, P, Q satisfy ExpSpec (E = exp(A h), P, Q its hold integrals); pre_eig theorems: phi' M phi = 1, "
+    "phi' K phi = diag(w); all measured per run, not proved of scipy",
+    "complex_unc_rb_exact_partial: the rigid-body row of an uncoupled complex-dtype system is undamped (b = 0); the "
+    "damped row is open finding F61 (complex_unc_damped_rb_counterexample shows the hypothesis is necessary)",
 ]
 PARTIAL = (
-    "partial: (1) scipy.linalg.eig/inv, eigh (pre_eig), lu_solve and expmint's Pade evaluation are not modelled: "
-    "decoupled_recovers / delconj_recovers / coupled_run_exact_real and exp2_step_exact / exp2_run_exact are proved "
-    "*given* the eigen-decomposition resp. E = exp(Ah), P, Q (the hypotheses are measured on the implementation's own "
-    "values each run; Props/C07 proves the series-level content of E, P, Q); the pre_eig transformation (eigh, modal "
-    "force phi'F, initial conditions phi^-1 d0) and SolveExp1 are tied by correspondence only; the rigid-body recurrence "
-    "of the coupled path (rbStep) is tied by correspondence and is the rigid regime of su_coef_eq algebraically, no "
-    "separate theorem; (2) the rigid-damped velocity-only regime is exact for the velocity only (by design of the "
-    "source: rigidVelo_velocity_exact states the displacement defect); (3) the coupled static initial state "
-    "(np.linalg.solve(k_ee, F0)) and the coupled acceleration (lu_solve) are evaluated by numpy in the harness, not "
-    "by the Lean model; (4) cd_as_force (off-diagonal damping as force) is outside the exactness property and not "
-    "modelled; (5) switch errors of the cut-offs (|lam| < 5e-5, |w2/wo2| < 1e-8, wo2 < 0.005) and cancellation below "
-    "w*h = 1e-2 are floating-point facts: measured, not proved"
+    "partial: (1) scipy.linalg.eig/inv, la.eigh (pre_eig) and expmint's Pade evaluation are not modelled: "
+    "decoupled_recovers / delconj_recovers / coupled_run_exact_real, exp2_step_exact / exp2_run_exact, exp1_step_exact / "
+    "exp1_run_exact and pre_eig_solution_is_solution are proved *given* the eigen-decomposition, resp. E = exp(Ah), P, Q, "
+    "resp. phi' M phi = 1, phi' K phi = diag(w) (the hypotheses are measured on the implementation's own values each run, "
+    "exactly over Q on the diagonal pre_eig cases; Props/C07 proves the series-level content of E, P, Q); LAPACK's "
+    "solves are Gaussian elimination in the model (proved to solve: lin_solve_spec), LAPACK itself is tied numerically; "
+    "(2) the rigid-damped velocity-only regime is exact for the velocity only (by design of the source: "
+    "rigidVelo_velocity_exact states the displacement defect); (3) uncoupled equations with complex-dtype coefficients: "
+    "rigid-body rows are proved exact only when undamped (complex_unc_rb_exact_partial; the damped row is open finding "
+    "F61 with a proved counterexample), and when conjugate pairs were deleted the complex recovery leaves a spurious "
+    "imaginary part (new finding; the real part is proved to be the exact real recovery: complex_recovery_real_part); "
+    "(4) cd_as_force (off-diagonal damping as force) belongs to C08 / C17, it is outside this property and not modelled "
+    "here; (5) the cut-off constants are translated from the source and pinned (cuts_as_documented, "
+    "crit_regimes_partition, classify_*_spec), but the switch errors they cause (|lam| < 5e-5, |w2/wo2| < 1e-8, "
+    "abs(k) < 0.005, the damped-rigid-body cut-offs) and the cancellation below w*h = 1e-2 are floating-point facts: "
+    "measured (boundary oracle, 60-digit reference), not proved; (6) for the coupled, SolveExp2 and pre_eig paths the "
+    "composition static solve -> stepping -> acceleration -> recovery is chained by the harness from the model's pieces "
+    "(each piece is a Lean definition with its theorem); only the uncoupled real path and the complex uncoupled path "
+    "are composed inside the driver"
 )
 MANIFEST = {
     "level_text": "Proof (Lean 4, kernel-checked, standard axioms only) about ONE polymorphic transcription of "
-    "get_su_coef and of the SolveUnc / SolveExp2 recurrences. Uncoupled path: for each regime (under-, over-, critically "
-    "damped, rigid, damped rigid) the closed form built from the code's own F, G, Fp, Gp solves m a + b v + k x = p + s t "
-    "with the initial conditions; the code's A, B, Ap, Bp make one step equal to that solution at t = h (order 1 and 0); "
-    "the solution is unique (Groenwall, Mathlib), so every sample of the recurrence is the end state of THE solution "
-    "started at the previous sample (run_exact_unique); the returned acceleration satisfies the equation of motion. "
-    "Coupled path: if A U = U diag(lam), U V = 1, the modal recurrence with the code's Fe, Ae, Be mapped back through U "
-    "is the state of THE solution of z' = A z + [M^-1 f; 0] (decoupled_recovers), the d / v blocks are those of the "
-    "second-order equation (coupled_step_exact, coupled_run_exact), and for real systems the kept-conjugate recurrence "
-    "with the doubled eigenvectors and rur_d ry - iur_d iy recovers exactly that real solution, sample after sample "
-    "(delconj_recovers, coupled_run_exact_real). SolveExp2: given E = exp(Ah) and the two hold integrals, every sample "
-    "of the E/P/Q recurrence is the end state of THE solution (exp2_step_exact, exp2_run_exact). Bookkeeping: rb/el/rf "
-    "partition [0,n) for explicit and auto-detected rb (uncoupled |k| test, coupled row/column maxima of |k|, |b|), "
-    "nonrf[_rb] = rb and nonrf[_el] = el in order, _mk_slice converts exactly the contiguous ranges; static_ic gives "
-    "k d0 = F0, v0 = 0, a0 = 0 on elastic rows, rf rows are the static solution. The same definitions run at Float and "
-    "are compared with get_su_coef, SolveUnc.tsolve (option grid), the coupled path (closed form, and driven by the "
-    "implementation's own eigen-decomposition), pre_eig, SolveExp2 (closed form, and driven by its own E, P, Q) and "
-    "SolveExp1 on every run.",
-    "level_note": "Trusted: Lean kernel; propext, Classical.choice, Quot.sound; the Python harness; libm. Partial: "
-    "scipy's eig / inv / eigh / lu_solve and expmint's Pade evaluation are hypotheses of the coupled and SolveExp2 "
-    "theorems, measured on the implementation's own values on every run (not proved); pre_eig and SolveExp1 are tied by "
-    "correspondence only; cut-off switch errors and cancellation below w*h = 1e-2 are measured, not proved.",
+    "get_su_coef and of the SolveUnc / SolveExp2 / SolveExp1 recurrences. Uncoupled path: for each regime (under-, over-, "
+    "critically damped, rigid, damped rigid) the closed form built from the code's own F, G, Fp, Gp solves "
+    "m a + b v + k x = p + s t with the initial conditions; the code's A, B, Ap, Bp make one step equal to that solution "
+    "at t = h (order 1 and 0); the solution is unique (Groenwall, Mathlib), so every sample of the recurrence is the end "
+    "state of THE solution started at the previous sample (run_exact_unique); the returned acceleration satisfies the "
+    "equation of motion. Coupled path: if A U = U diag(lam), U V = 1, the modal recurrence with the code's Fe, Ae, Be "
+    "mapped back through U is the state of THE solution of z' = A z + [M^-1 f; 0] (decoupled_recovers), the d / v blocks "
+    "are those of the second-order equation (coupled_step_exact, coupled_run_exact), for real systems the "
+    "kept-conjugate recurrence recovers exactly that real solution (delconj_recovers, coupled_run_exact_real), and its "
+    "rigid-body recurrence is the rigid regime of get_su_coef at unit mass, hence exact (rb_step_is_rigid_regime, "
+    "rb_run_exact). SolveExp2 and SolveExp1: given E = exp(Ah) and the two hold integrals, every sample of the E/P/Q "
+    "recurrence is the end state of THE solution (exp2_*, exp1_step_exact, exp1_run_exact), SolveExp1's history is "
+    "float64 for every force dtype and its v is the derivative (exp1_history_not_converted, exp1_velo_is_derivative). "
+    "pre_eig: if phi' M phi = 1 and phi' K phi = diag(w), a solution of the modal system maps through phi to a solution "
+    "of the physical system for every form of mass and damping (pre_eig_solution_is_solution), and the first sample is "
+    "the d0, v0 that were passed (pre_eig_ic_consistent, pre_eig_first_sample). Linear solves: the model's elimination "
+    "returns a solution over any field; the coupled static initial state satisfies K d0 = F0 on the elastic rows with "
+    "zero rigid-body rows and zero elastic acceleration, and the coupled acceleration satisfies M a + B v + K d = F "
+    "(static_ic_coupled_is_equilibrium, static_ic_coupled_accel_zero, accel_coupled_eom). Cut-offs: the literals of the "
+    "regime tests are translated from the source on every run; they are the documented values and the three elastic tests "
+    "partition the line (cuts_as_documented, crit_regimes_partition, classify_elastic_spec, classify_rb_spec). Bookkeeping: "
+    "rb/el/rf partition [0,n) for explicit and auto-detected rb, nonrf[_rb] = rb and nonrf[_el] = el in order, _mk_slice "
+    "converts exactly the contiguous ranges; static_ic gives k d0 = F0, v0 = 0, a0 = 0 on elastic rows, rf rows are the "
+    "static solution. Uncoupled complex-dtype systems: the rigid-body rows are the undamped recurrence (exact iff the row "
+    "is undamped: open finding F61 with proved counterexample). The same definitions run at Float (and over Q where "
+    "the arithmetic is exact) and are compared with get_su_coef, SolveUnc.tsolve (option grid), the coupled path, "
+    "pre_eig, SolveExp2, SolveExp1 and the complex uncoupled path on every run.",
+    "level_note": "Trusted: Lean kernel; propext, Classical.choice, Quot.sound; the Python harness and the cut-off "
+    "translator; libm. Partial: scipy's eig / inv / eigh and expmint's Pade evaluation are hypotheses of the coupled, "
+    "SolveExp2, SolveExp1 and pre_eig theorems, measured on the implementation's own values on every run (not proved); "
+    "LAPACK's solves are tied numerically to the model's proved elimination; for the coupled / SolveExp2 / pre_eig paths "
+    "the chaining of the model's pieces is done by the harness; cut-off switch errors and cancellation below "
+    "w*h = 1e-2 are measured (60-digit reference at the boundaries), not proved; cd_as_force belongs to C08/C17.",
     "technique": "Lean 4 proof (HasDerivAt of closed forms through one polymorphic definition, field_simp/ring "
     "identities, induction over steps, Mathlib ODE uniqueness, Matrix algebra over C for the decoupling and the "
-    "conjugate-pair reduction, variation of constants for E/P/Q) + numeric differential correspondence at Float "
-    "(including streams in which the model is driven by the implementation's own eig / expm results, with the "
-    "hypotheses of the theorems measured) + model-free oracle (solver agreement, scipy-expm reference, step-subdivision "
-    "invariance, option invariance, static equilibrium, EOM residual)",
+    "conjugate-pair reduction, variation of constants for E/P/Q, congruence argument for pre_eig, proved Gaussian "
+    "elimination for the linear solves) + translator (Python ast) for the cut-off literals + differential correspondence "
+    "at Float and exactly over Q (including streams in which the model is driven by the implementation's own eig / expm "
+    "/ eigh results, with the hypotheses of the theorems measured) + model-free oracle (solver agreement, scipy-expm "
+    "reference, 60-digit one-mode reference at the cut-off boundaries, step-subdivision invariance, option invariance, "
+    "static equilibrium, EOM residual)",
 }
 
 NAMES = "F G A B Fp Gp Ap Bp".split()
@@ -397,6 +451,12 @@ def _corr_coef(ctx, drv):
             sc = _scales(regime, m, b, k, h)
         except (ZeroDivisionError, OverflowError, ValueError):
             sc = {n_: 0.0 for n_ in NAMES}
+        if regime in ("rigid", "rf"):
+            # rational formulas, the same operations in the same order: the doubles must be EQUAL
+            ctx.count("coef:exact-compared")
+            if any(not (iv == xv or (iv != iv and xv != xv)) for iv, xv in zip(impl[:8], mv)):
+                ctx.disagree("coef-" + regime + "-exact", inp, dict(zip(NAMES, impl[:8])), dict(zip(NAMES, mv)))
+            continue
         for n, iv, xv in zip(NAMES, impl[:8], mv):
             s = max(sc[n], abs(iv), abs(xv))
             if not (math.isfinite(iv) and math.isfinite(xv)):
@@ -1097,7 +1157,7 @@ def _gen_pc_specs(ctx, rng, n_general, n_modal):
 def _state_matrix(M, B, K):
     n = K.shape[0]
     Mi = np.linalg.inv(M)
-    A = np.zeros((2 * n, 2 * n))
+    A = np.zeros((2 * n, 2 * n), np.result_type(M, B, K, float))
     A[:n, :n] = -Mi @ B
     A[:n, n:] = -Mi @ K
     A[n:, :n] = np.eye(n)
@@ -1706,7 +1766,7 @@ def _job_preeig(ctx, s, ts, sol):
     cond = float(np.linalg.cond(phi))
     res = max(np.abs(G - np.eye(n)).max(), np.abs(W - np.diag(w)).max() / ks)
     _note("pe-eigh-spec-residual", res)
-    ctx.count("pe:spec-checked")
+    ctx.count("pe:eigh-spec-checked")
     if not res <= 1e-9 * max(10.0, cond):
         # the implementation's own mode shapes do not satisfy the hypotheses of pre_eig_solution_is_solution
         return ("disagree", "pe-eigh-spec", {"residual": float(res), "cond": cond}, "phi' M phi = 1, phi' K phi diagonal")
@@ -1884,6 +1944,153 @@ def _corr_preeig(ctx, drv):
                          {"model": str(rest[k_])})
 
 
+# ---------------------------------------------------------------------------------------
+# stream (u): SolveUnc.tsolve on UNCOUPLED equations with complex-dtype coefficients (zero or small non-zero imaginary
+# parts).  They take the complex-eigenvalue path; its rigid-body rows are integrated by the undamped recurrence whatever
+# their damping is (open finding F61) and the Lean model says exactly that (`cplxUncRbDV`), so this stream agrees with
+# the implementation; the model-free oracle reports the damped rows under the family of F61.
+
+F61 = "tsolve-unc-complex-dtype-damped-rigid-body-mode-damping-ignored"
+CU_IMAG = "tsolve-unc-complex-dtype-conjugate-pairs-deleted-spurious-imaginary-part"
+
+
+def _gen_cu(rng):
+    s = _gen_modal(rng, n=int(rng.integers(1, 6)), oracle=True, allow_rf=False, allow_crit=False)
+    n = s["n"]
+    nt = int(rng.integers(2, 20))
+    s["order"] = int(rng.integers(0, 2))
+    s["rb"] = None if rng.random() < 0.5 else [i for i in range(n) if s["kinds"][i] == "rb"]
+    s["rf"] = []
+    s["static"] = bool(rng.random() < 0.3)
+    s["d0"] = _gen_ic_vec(rng, n, 0.45)
+    s["v0"] = _gen_ic_vec(rng, n, 0.45, 0.1 / s["h"])
+    s["F"] = [[float(x) for x in row] for row in rng.standard_normal((n, nt)) * 10 ** rng.uniform(-1, 2)]
+    s["kind"] = "cplx-unc"
+    # which array carries the complex dtype, and the loss factor of the stiffness (0: zero imaginary parts)
+    s["carrier"] = str(rng.choice(["k", "b", "m"])) if s["m"] is not None else str(rng.choice(["k", "b"]))
+    s["eta"] = 0.0 if rng.random() < 0.5 else float(10 ** rng.uniform(-3, -1.3))
+    if s["eta"]:
+        s["carrier"] = "k"
+    return s
+
+
+def _cu_args(s):
+    m = None if s["m"] is None else np.array(s["m"], float)
+    b = np.array(s["b"], float)
+    k = np.array(s["k"], float)
+    if s["carrier"] == "k":
+        k = k * (1 + 1j * s["eta"])
+    elif s["carrier"] == "b":
+        b = b.astype(complex)
+    else:
+        m = m.astype(complex)
+    return m, b, k
+
+
+def _cc(a):
+    return " ".join(_cbits(z) for z in np.asarray(a, complex).ravel())
+
+
+def _corr_cu(ctx, drv):
+    ode = _ode()
+    rng = ctx.np_rng(12)
+    jobs, reqs = [], []
+    for _ in range(ctx.pick(200, 2000)):
+        s = _gen_cu(rng)
+        n, h, o = s["n"], s["h"], s["order"]
+        m, b, k = _cu_args(s)
+        F = np.array(s["F"], float)
+        nt = F.shape[1]
+        inp = dict(s, stream="cu")
+        ctx.case(json.dumps(s, sort_keys=True), nontrivial=nt >= 3, branch="cu:order%d" % o)
+        for tag in ("cu:carrier-" + s["carrier"], "cu:imaginary-" + ("zero" if not s["eta"] else "nonzero"),
+                    "cu:rb-" + ("auto" if s["rb"] is None else "given"), "cu:m-" + ("none" if m is None else "given")):
+            ctx.count(tag)
+        for sub in set(s["sub"]):
+            if sub.startswith("rb"):
+                ctx.count("cu:" + sub)
+        if s["static"] and s["d0"] is None:
+            ctx.count("cu:static-ic")
+        try:
+            with warnings.catch_warnings():
+                warnings.simplefilter("ignore")
+                ts = ode.SolveUnc(m, b, k, h, rb=s["rb"], order=o)
+                sol = ts.tsolve(F, _arr(s["d0"]), _arr(s["v0"]), static_ic=s["static"])
+        except Exception as e:  # noqa: BLE001
+            ctx.disagree("cu-raises", inp, "%s: %s" % (type(e).__name__, str(e)[:80]), "a solution")
+            continue
+        if not (ts.unc and ts.systype is complex):
+            ctx.disagree("cu-path", inp, [bool(ts.unc), str(ts.systype)], "uncoupled, complex systype")
+            continue
+        el = _idx(ts.el, n)
+        pc = ts.pc
+        cond = 1.0
+        if el:
+            mm = np.ones(len(el)) if m is None else m[el]
+            A = _state_matrix(np.diag(mm), np.diag(b[el]), np.diag(k[el]))
+            lam = np.asarray(pc.lam)
+            U = np.vstack([np.asarray(pc.ur_v), np.asarray(pc.ur_d)])
+            V = np.hstack([np.asarray(pc.ur_inv_v), np.asarray(pc.ur_inv_d)])
+            if U.shape[0] != U.shape[1]:
+                # la.eig returned exactly conjugate pairs and delconj removed one of each (possible only with zero
+                # imaginary parts): the model is run on the kept data like the implementation (complex recovery of
+                # doubled eigenvectors: a spurious imaginary part, second finding of this path)
+                ctx.count("cu:conjugates-deleted")
+                sp = _delconj_spec(pc, A)
+                if isinstance(sp, str):
+                    ctx.skip("cu: " + sp)
+                    continue
+                res, cond = sp
+            else:
+                cond = float(np.linalg.cond(U))
+                res = max(np.abs(U @ V - np.eye(len(lam))).max(), np.abs(V @ U - np.eye(len(lam))).max(),
+                          np.abs(A @ U - U * lam[None, :]).max() / (max(1.0, np.abs(A).max()) * max(1.0, np.abs(U).max())))
+            grade = _slow_mode_grade(lam, h)
+            if cond > 1e6 or not pc.eig_success or grade is None:
+                ctx.skip("cu: eigenvectors ill conditioned or a slow mode outside the conditioning domain")
+                continue
+            ctx.count("cu:spec-checked")
+            _note("cu-eig-spec-residual-over-cond", res / max(10.0, cond))
+            if not res <= 1e-9 * max(10.0, cond):
+                ctx.disagree("cu-eig-spec", inp, {"residual": float(res), "cond": cond}, "<= 1e-9*cond")
+                continue
+            cond *= grade
+            pcs = "%d %s %s %s %s %s" % (len(lam), _cmat(lam), _cmat(pc.ur_v), _cmat(pc.ur_d), _cmat(pc.ur_inv_v),
+                                         _cmat(pc.ur_inv_d))
+        else:
+            pcs = "0"
+        t = ["cu", str(o), bits(h), str(n)]
+        t += ["none"] if m is None else ["vec", _cc(m)]
+        t += [_cc(b), _cc(k)]
+        t += ["n"] if s["rb"] is None else [str(len(s["rb"]))] + [str(i) for i in s["rb"]]
+        t.append("1" if s["static"] else "0")
+        for v in (s["d0"], s["v0"]):
+            t += ["n"] if v is None else ["y", _cc(v)]
+        t += [str(nt), _cc(F), pcs]
+        reqs.append(" ".join(x for x in t if x != ""))
+        jobs.append((s, inp, sol, cond))
+    worst = 0.0
+    for (s, inp, sol, cond), r in zip(jobs, drv.ask(reqs)):
+        if not r.startswith("ok"):
+            ctx.disagree("cu-model-refuses", inp, "a solution", r[:80])
+            continue
+        n, nt = s["n"], len(s["F"][0])
+        x = np.array([unbits(u) for u in r.split()[1:]])
+        z = (x[0::2] + 1j * x[1::2]).reshape(3, n, nt)
+        hh = s["h"]
+        sd = np.abs(z[0]).max() + hh * np.abs(z[1]).max() + 1e-300
+        sv = np.abs(z[1]).max() + sd / hh
+        sa = np.abs(z[2]).max() + sv / hh
+        tol = 1e-9 * max(10.0, cond)
+        for nm, iv, mv, sc in (("d", sol.d, z[0], sd), ("v", sol.v, z[1], sv), ("a", sol.a, z[2], sa)):
+            e = float(np.abs(np.asarray(iv) - mv).max() / sc)
+            worst = max(worst, e / max(10.0, cond))
+            if not e <= tol:
+                ctx.disagree("cu-" + nm, inp, {nm: e}, {"tolerance": tol})
+                break
+    ctx.sample({"stream": "cu", "worst_error_over_cond": float("%.2e" % worst), "systems": len(jobs)})
+
+
 def correspondence(ctx):
     _quiet()
     drv = ctx.driver("C01")
@@ -1896,10 +2103,11 @@ def correspondence(ctx):
     _corr_exp2(ctx, drv)
     _corr_exp1(ctx, drv)
     _corr_preeig(ctx, drv)
+    _corr_cu(ctx, drv)
     ctx.require_branches(
         ["coef:" + r for r in "rigid rigidVelo rigidFull under crit over rf partition-error".split()]
         + ["coef-tag:cut:velo", "coef-tag:cut:disp", "coef-tag:cut:rb", "coef-tag:cut:crit",
-           "cplx:small", "cplx:regular", "part:auto", "part:given", "part:rf-below-rb",
+           "coef:exact-compared", "cplx:small", "cplx:regular", "part:auto", "part:given", "part:rf-below-rb",
            "hist:order0", "hist:order1", "hist:under", "hist:crit", "hist:over", "hist:rf",
            "hist:rb-undamped", "hist:rb-damped-full", "hist:rb-damped-velo",
            "hist:layout-contiguous", "hist:layout-interleaved", "hist:pack-1d", "hist:pack-2d", "hist:pack-mixed",
@@ -1921,7 +2129,10 @@ def correspondence(ctx):
            "pe:SolveUnc", "pe:SolveExp2", "pe:d0-given", "pe:d0-none", "pe:v0-given", "pe:static-ic",
            "pe:with-rigid-body-modes", "pe:modal-system-uncoupled", "pe:static-by-model",
            "pex:SolveUnc", "pex:SolveExp2", "pex:mass-none", "pex:mass-vec", "pex:mass-mat", "pex:damping-vec",
-           "pex:damping-mat", "pex:static-ic", "pex:with-rigid-body-mode", "pex:eigh-exact"]
+           "pex:damping-mat", "pex:static-ic", "pex:with-rigid-body-mode", "pex:eigh-exact",
+           "cu:order0", "cu:order1", "cu:carrier-k", "cu:carrier-b", "cu:carrier-m", "cu:imaginary-zero",
+           "cu:imaginary-nonzero", "cu:rb-auto", "cu:rb-given", "cu:m-none", "cu:m-given", "cu:rb-undamped",
+           "cu:rb-damped-full", "cu:static-ic", "cu:spec-checked"]
     )
 
 
@@ -2667,6 +2878,115 @@ def _oracle_boundary(s, fails):
         return
 
 
+def _expm_reference_c(M, B, K, h, F, d0, v0, order):
+    """`_expm_reference` for complex coefficients"""
+    import scipy.linalg as sla
+
+    n, nt = F.shape
+    Mi = np.linalg.inv(M)
+    A = np.zeros((2 * n, 2 * n), complex)
+    A[:n, :n] = -Mi @ B
+    A[:n, n:] = -Mi @ K
+    A[n:, :n] = np.eye(n)
+    big = np.zeros((4 * n, 4 * n), complex)
+    big[: 2 * n, : 2 * n] = A
+    big[:n, 2 * n: 3 * n] = Mi
+    big[2 * n: 3 * n, 3 * n:] = np.eye(n)
+    E = sla.expm(big * h)
+    z = np.concatenate([np.zeros(n) if v0 is None else v0, np.zeros(n) if d0 is None else d0]).astype(complex)
+    d, v, a = (np.zeros((n, nt), complex) for _ in range(3))
+    for j in range(nt):
+        d[:, j], v[:, j] = z[n:], z[:n]
+        a[:, j] = Mi @ (F[:, j] - B @ v[:, j] - K @ d[:, j])
+        if j + 1 < nt:
+            g = (F[:, j + 1] - F[:, j]) / h if order == 1 else np.zeros(n)
+            z = (E @ np.concatenate([z, F[:, j], g]))[: 2 * n]
+    return d, v, a
+
+
+def _oracle_cu(s, fails):
+    """uncoupled equations with complex-dtype coefficients: SolveUnc against the exact hold solution (scipy expm).
+    A damped rigid-body row that comes out as the UNDAMPED one — and nothing else wrong — is finding F61."""
+    ode = _ode()
+    n, h, o = s["n"], s["h"], s["order"]
+    m, b, k = _cu_args(s)
+    F = np.array(s["F"], float)
+    inp = dict(s)
+    rbs = [i for i in range(n) if s["kinds"][i] == "rb"]
+    el = [i for i in range(n) if s["kinds"][i] == "el"]
+    d0, v0 = _arr(s["d0"]), _arr(s["v0"])
+    if d0 is None and s["static"]:
+        d0 = np.zeros(n, complex)
+        if el and np.any(F[el, 0]):
+            d0[el] = F[el, 0] / k[el]
+    M = np.diag(np.ones(n) if m is None else m)
+
+    def ref(bvec):
+        kk = np.array(k, complex)
+        kk[rbs] = 0.0  # a rigid-body mode has no stiffness (documented meaning of `rb`)
+        return _expm_reference_c(M, np.diag(bvec), np.diag(kk), h, F, d0, v0, o)
+
+    try:
+        with warnings.catch_warnings():
+            warnings.simplefilter("ignore")
+            so = ode.SolveUnc(m, b, k, h, rb=s["rb"], order=o).tsolve(F, _arr(s["d0"]), _arr(s["v0"]), s["static"])
+    except Exception as e:  # noqa: BLE001
+        fails.append({"family": "complex-uncoupled-raises", "what": "SolveUnc refuses an uncoupled system with complex-dtype "
+                      "coefficients", "input": inp, "observed": repr(e)[:120], "required": "a solution"})
+        return
+    got = [np.asarray(x) for x in (so.d, so.v, so.a)]
+    hh = h
+
+    def rowerr(r):
+        sd = np.abs(r[0]).max(axis=1) + hh * np.abs(r[1]).max(axis=1) + 1e-300
+        sv = np.abs(r[1]).max(axis=1) + sd / hh
+        sa = np.abs(r[2]).max(axis=1) + sv / hh
+        return np.max([np.abs(g - x).max(axis=1) / sc for g, x, sc in zip(got, r, (sd, sv, sa))], axis=0)
+
+    TOL = 1e-7
+    e_true = rowerr(ref(np.array(b, complex)))
+    _note("complex-uncoupled-SolveUnc", float(np.max(np.where(np.isin(np.arange(n), [i for i in rbs if b[i] != 0]), 0.0, e_true))))
+    bad = [i for i in range(n) if not e_true[i] <= TOL]
+    if not bad:
+        return
+    damped_rb = [i for i in rbs if b[i] != 0]
+    b0 = np.array(b, complex)
+    b0[damped_rb] = 0.0
+    e_undamped = rowerr(ref(b0))
+    if damped_rb and set(bad) <= set(damped_rb) and np.all(e_undamped <= TOL):
+        fails.append({"family": F61,
+                      "what": "SolveUnc.tsolve, uncoupled equations with complex-dtype coefficients (%s complex, loss factor %g): "
+                              "the damped rigid-body row(s) %s are integrated as undamped (d, v, a equal the b = 0 solution to "
+                              "%.1e, differ from the exact hold solution by %.2e); all other rows are right"
+                              % (s["carrier"], s["eta"], bad, float(e_undamped.max()), float(e_true[bad].max())),
+                      "input": inp, "observed": float(e_true[bad].max()), "required": "<= %g" % TOL})
+        return
+    if not s["eta"]:
+        # all imaginary parts are zero: the solution is real.  Real parts right (up to F61 on damped rigid-body rows)
+        # and a spurious imaginary part on elastic rows = the conjugate pairs were deleted but recovered in complex
+        rr = ref(np.array(b, complex))
+        got_re = [g.real for g in got]
+        saved = got[:]
+        got[:] = got_re
+        e_re = rowerr([x.real for x in rr])
+        e_re0 = rowerr([x.real for x in ref(b0)])
+        got[:] = saved
+        imag = max(float(np.abs(g.imag).max()) for g in got)
+        el_bad = [i for i in bad if i not in damped_rb]
+        if el_bad and all(min(e_re[i], e_re0[i]) <= TOL for i in range(n)) and all(e_re[i] <= TOL for i in el_bad) and imag > 0:
+            fails.append({"family": CU_IMAG,
+                          "what": "SolveUnc.tsolve, uncoupled equations given with a complex dtype but zero imaginary parts (%s "
+                                  "complex): rows %s come back with an imaginary part up to %.3g although the solution is real "
+                                  "(the real parts are right to %.1e): conjugate eigenvalue pairs were deleted (delconj) but the "
+                                  "complex recovery ur_d @ y was used" % (s["carrier"], el_bad, imag, float(e_re[el_bad].max())),
+                          "input": inp, "observed": imag, "required": "imaginary part 0 (to round-off)"})
+            return
+    fails.append({"family": "complex-uncoupled-SolveUnc-vs-expm-reference-order%d" % o,
+                  "what": "SolveUnc.tsolve on uncoupled equations with complex-dtype coefficients differs from the exact hold "
+                          "solution in rows %s (kinds %s) - not the damped-rigid-body pattern of F61" % (bad, [s["sub"][i] for i in bad]),
+                  "input": inp, "observed": float(e_true[bad].max()), "required": "<= %g" % TOL})
+
+
 def _oracle_one(s):
     _quiet()
     fails = []
@@ -2675,6 +2995,9 @@ def _oracle_one(s):
         return fails
     if s.get("kind") == "exp1":
         _oracle_exp1(s, fails)
+        return fails
+    if s.get("kind") == "cplx-unc":
+        _oracle_cu(s, fails)
         return fails
     if s.get("kind") == "boundary":
         _oracle_boundary(s, fails)
@@ -2708,7 +3031,7 @@ def _hint_specs(hints):
                 out.append(i["usys"])
             else:
                 out.append({k_: v for k_, v in i.items() if k_ not in ("stream", "static", "rb", "rf", "blockphi")})
-        elif st == "exp1":
+        elif st in ("exp1", "cu"):
             out.append({k_: v for k_, v in i.items() if k_ != "stream"})
         elif st == "pe":
             out.append({k_: v for k_, v in i.items() if k_ not in ("stream", "mform", "bform", "solver", "static")} | {"kind": "general"})
@@ -2736,7 +3059,15 @@ def _fixed_specs():
     """small hand-picked systems that always run (rf below rb)."""
     base = dict(layout="interleaved", order=1, static=False, d0=None, v0=None, pack="1d")
     F = [[1.0, 1.0, 1.0, 1.0, 1.0]] * 4
+    t = np.arange(40) * 0.01
+    cu = dict(kind="cplx-unc", layout="contiguous", order=1, static=False, d0=None, v0=None, rb=None, rf=[], h=0.01,
+              carrier="k", eta=0.0)
     return [
+        # the reproducer of finding F61 (damped rigid-body row of an uncoupled complex-dtype system)
+        dict(cu, n=2, m=[2.0, 3.0], b=[0.8, 0.3], k=[0.0, 50.0], kinds=["rb", "el"], sub=["rb-damped-full", "under"],
+             F=[[float(x) for x in np.sin(3 * t)], [float(x) for x in np.cos(2 * t)]]),
+        # one under-damped mode, complex dtype with zero imaginary parts, on which la.eig returns an exactly conjugate pair
+        dict(cu, n=1, m=None, b=[0.1], k=[16.0], kinds=["el"], sub=["under"], F=[[float(x) for x in np.sin(3 * t)]]),
         dict(base, n=4, h=0.01, m=None, b=[0.0, 0.0, 2.0, 3.0], k=[1e6, 0.0, 400.0, 900.0], kinds=["rf", "rb", "el", "el"],
              sub=["rf", "rb-undamped", "under", "under"], rb=None, rf=[0], F=F),
         dict(base, n=4, h=0.01, m=None, b=[0.0, 2.0, 3.0, 0.0], k=[0.0, 400.0, 900.0, 1e6], kinds=["rb", "el", "el", "rf"],
@@ -2757,10 +3088,13 @@ def search(ctx, hints):
     rng1 = ctx.np_rng(11)
     for _ in range(ctx.pick(150, 1500)):
         specs.append(_gen_exp1(rng1))
+    rng2 = ctx.np_rng(13)
+    for _ in range(ctx.pick(80, 800)):
+        specs.append(_gen_cu(rng2))
     specs = _boundary_specs() + specs
     for s in specs:
         fs = _oracle_one(s)
-        if s.get("kind") in ("exp1", "boundary"):
+        if s.get("kind") in ("exp1", "boundary", "cplx-unc"):
             ctx.count("oracle:" + s["kind"] + ("-" + s["cut"] if s.get("cut") else ""))
             ctx.failures.extend(fs)
             continue
